@@ -222,6 +222,23 @@ def walk_all(inst):
     return out
 
 
+def _grow(inst):
+    """Append a copy of an existing member to the first non-empty list found (the instance itself or a message set of an
+    OFX root).  -> True if something was added."""
+    from ofxtools.models.base import Aggregate
+
+    targets = [inst] + [v for v in (M.stored(inst, a) for a, k, t in M.decl(type(inst)) if k == "sub") if isinstance(v, Aggregate)]
+    for x in targets:
+        ms = [m for m in members(x) if isinstance(m, Aggregate)]
+        if ms and M.member_types(type(x)):
+            try:
+                x.append(copy.deepcopy(ms[0]))
+                return True
+            except Exception:
+                return False
+    return False
+
+
 def check_case(case):
     H.setup_path()
     with warnings.catch_warnings():
@@ -248,6 +265,11 @@ def check_case(case):
         res = check_instance(inst, names)
         if via:
             res = [(k + "/parsed-instance", d) for k, d in res]
+        # the shortcuts are views of the tree as it is now: after a list member has been added, they still agree with
+        # the full path
+        grown = _grow(inst)
+        if grown:
+            res += [(k + "/after-a-member-was-added", d) for k, d in check_instance(inst, names[:1]) if k.startswith("shortcut")]
     # one failure per key is enough
     seen, out = set(), []
     for k, d in res:
